@@ -280,7 +280,34 @@ def run_case(case, stats=None):
 
 
 def run_riscv(desc, calls, level, refs, target):
-    raise Discard("riscv executor not available")
+    """riscv / riscv:rvc through the emulator vf/rv32.py (helper vf/props/c05_riscv.py)."""
+    from . import c05_riscv
+
+    rvc = target == "riscv:rvc"
+    m = genir.build(desc)
+    try:
+        prog = c05_riscv.compile_ir(m, rvc, level)
+    except c05_riscv.CompileError as e:
+        raise Discard("code generation fails (C29): %s" % str(e)[:80])
+    except c05_riscv.Unsupported as e:
+        raise Discard("riscv glue: %s" % str(e)[:60])
+    byname = {f["name"]: f for f in desc["functions"]}
+    for (fname, args), ref in zip(calls, refs):
+        if ref is None:
+            continue
+        f = byname[fname]
+        bufs = [bytes(range(16, 32))] * genir.nbufs(f)
+        a = genir.decode_args(args)
+        try:
+            got = prog.run(fname, a, buffers=bufs)
+        except c05_riscv.Unsupported:
+            continue
+        except c05_riscv.ExecError as e:
+            return "-O%s %s%r on %s: emulated execution stopped (%s: %s); IR interpreter returns %r" % (level, fname, args, target, e.kind, str(e)[:120], ref["ret"])
+        d = irsem.obs_equal(ref, got)
+        if d:
+            return "-O%s %s%r: %s machine code vs IR semantics: %s" % (level, fname, args, target, d)
+    return None
 
 
 def replay(case):
@@ -294,14 +321,33 @@ def classify(case, msg):
     return None
 
 
+RV_TYPES = ["i8", "u8", "i16", "u16", "i32", "u32"]
+PROFILES = {
+    "x86_64": PROFILE,
+    "riscv": genir.target_profile("riscv", ptr_bits=32, int_types=RV_TYPES, float_types=[], max_params=9, max_funcs=3, rotates=False),
+    "riscv:rvc": genir.target_profile("riscv:rvc", ptr_bits=32, int_types=RV_TYPES, float_types=[], max_params=9, max_funcs=3, rotates=False),
+}
+
+
+def riscv_available():
+    try:
+        from . import c05_riscv  # noqa: F401
+
+        return True
+    except Exception:
+        return False
+
+
 @st.composite
-def case_strategy(draw):
-    desc = draw(genir.modules(PROFILE))
+def case_strategy(draw, targets=("x86_64",)):
+    target = draw(st.sampled_from(list(targets)))
+    prof = PROFILES[target]
+    desc = draw(genir.modules(prof))
     calls = []
     for f in desc["functions"]:
         for _ in range(draw(st.integers(1, 2))):
-            calls.append([f["name"], draw(genir.arg_strategy(f, PROFILE))])
-    return {"module": desc, "calls": calls, "target": "x86_64"}
+            calls.append([f["name"], draw(genir.arg_strategy(f, prof))])
+    return {"module": desc, "calls": calls, "target": target}
 
 
 def _worker(arg):
@@ -317,8 +363,9 @@ def _worker(arg):
                    classes=["target:" + case["target"], "levels_ok:%d" % ran, "defined_calls:%d" % min(defined, 4)])
         return msg
 
+    targets = ("x86_64", "riscv", "riscv:rvc") if riscv_available() else ("x86_64",)
     try:
-        fails = hyp_search(case_strategy(), prop, n, seed, stats, classify=classify)
+        fails = hyp_search(case_strategy(targets), prop, n, seed, stats, classify=classify)
     finally:
         cleanup()
     return stats, fails
@@ -330,5 +377,5 @@ def run(ctx):
         raise HarnessError(reason)
     n = ctx.scale(96, 9600)
     ctx.pmap(_worker, [(subseed(ctx.seed, PID, w), max(1, n // 16)) for w in range(16)])
-    ctx.extra["targets_covered"] = ["x86_64"]
-    ctx.extra["targets_not_covered"] = ["arm", "arm:thumb", "m68k", "mips (no emulator in the sandbox)", "riscv, riscv:rvc (emulator pending)"]
+    ctx.extra["targets_covered"] = ["x86_64"] + (["riscv", "riscv:rvc"] if riscv_available() else [])
+    ctx.extra["targets_not_covered"] = ["arm", "arm:thumb", "m68k", "mips (no emulator in the sandbox)"]
